@@ -537,8 +537,8 @@ fn has_sibling_group(set: &HashSet<u64>) -> Option<u64> {
 pub fn search_c08(rng: &mut Rng, thorough: bool) -> SearchResult {
     let mut r = SearchResult::default();
     r.rule = "inputs built by recursive subdivision and deletion from the world cell, a base cell, a quintant or a deep cell, with overlapping ancestor/descendant additions, duplicates and shuffles: cover at a resolution R >= all inputs is unchanged by compact, result has no duplicates, result is independent of order and multiplicity of the input. non-trivial = inputs on which compact merges something or which contain overlaps/duplicates".into();
-    for _ in 0..(if thorough { 20_000 } else { 3_000 }) {
-        let input = compact_input(rng, thorough);
+    for it in 0..(if thorough { 40_000 } else { 6_000 }) {
+        let input = if it % 2 == 0 { compact_input(rng, thorough) } else { idcorr::overlap_input(rng) };
         if input.is_empty() {
             continue;
         }
